@@ -29,6 +29,8 @@ def run(ctx):
                 continue
             validate_first(ctx, cname, meth)
             commit_after_check(ctx, cname, meth)
+            if meth == "update":
+                commit_after_restart(ctx, cname)
     for cname in UNIVARIATE:
         univariate(ctx, cname)
 
@@ -351,6 +353,38 @@ def commit_after_check(ctx, cname, meth):
         cons = "state written before `raise %s` under %s" % (e.exc, _raise_kind(e))
         ctx.ob("EXC-commit", e.func.qualname, cons if written else "no state written before `raise %s` under %s" % (e.exc, _raise_kind(e)), not written,
                "a rejected call has already stored %s: later accepted inputs are then judged against a rejected one" % ", ".join(written), e, nontrivial=bool(written) or True)
+
+
+def commit_after_restart(ctx, cname):
+    """The same obligation in the entry states in which update() first restarts the epoch (after a reported drift): a call that
+    is rejected there may leave the *completed* restart behind (the next accepted call would have performed it anyway and will
+    not repeat it, because the state is cleared), but nothing that the next accepted call performs a second time."""
+    from . import c01
+    site = cname + ".update"
+    tot, _since = q.counters(ctx.prog, ctx.prog.cls(cname))
+    seen = set()
+    for cell in c01.cells(cname):
+        ds = cell["_drift_state"]
+        if ds is None:
+            continue
+        tr = ctx.trace(cname, "update", assume=cell, nonnull=NONNULL.get(cname, ("X",)))
+        cnt = [e for e in tr.stores(tot)]
+        limit = cnt[0].seq if cnt else 10 ** 9
+        for e in tr.raises():
+            if e.seq > limit or e.func.is_setter or any(f.name == "reset" for f in e.stack) or e.exc != "ValueError":
+                continue
+            written = sorted(k for k, v in e.attrs.items() if not k.startswith("__") and v != A(k) and not (k in cell and v == const(cell[k])) and k != "_drift_state"
+                             and k not in ("_input_cols", "_input_col_dim"))  # the validators' own early stores are judged (and recorded: KF-1..3) in the plain entry state
+            now = e.attrs.get("_drift_state", const(ds))
+            lab = ",".join("%s=%r" % kv for kv in sorted(cell.items()))
+            k = (e.func.qualname, e.line, lab)
+            if k in seen or not written:
+                continue
+            seen.add(k)
+            ok = now == T.NONE
+            ctx.ob("EXC-commit", site, "a call rejected right after a reported state leaves at most the completed restart behind [%s; refusal in %s]" % (lab, e.func.qualname), ok,
+                   "the rejected call has already stored %s while drift_state still is %s: the next accepted update repeats that step on the changed state"
+                   % (", ".join(written), q.short(now, 20)), e)
 
 
 def _raise_kind(e):
